@@ -213,6 +213,10 @@ def random_trace(rnd):
                 during = []
                 next_clean += 75
                 continue
+            if rnd.random() < 0.08:
+                # the system's wall clock is stepped (forwards or backwards); elapsed time is what the property speaks about
+                loop.wall_offset += rnd.choice([3600.0, -3600.0, 86400.0, -5.0])
+                continue
             if rnd.random() < 0.45:
                 dd = rnd.choice([1, 1, 2, 5, 25, 75, 75, 150, rnd.randint(1, 200)])
                 dd = min(dd, next_clean - now)
